@@ -203,6 +203,8 @@ def etld_rejects_empty_labels(p):
     et = p.method("public_suffix::ListProvider", "effective_tld_plus_one", trait="public_suffix::EffectiveTLDProvider")
     if et is None:
         return False, False, None, None, "effective_tld_plus_one not found"
+    from . import inline
+    et = inline.inlined(p, et)
     T = flow.Terms(p, et)
     calls = names.calls_to(et, "ListProvider::public_suffix")
     if len(calls) != 1:
